@@ -19,6 +19,7 @@ import (
 	"github.com/go-openapi/runtime/middleware"
 	"github.com/go-openapi/runtime/middleware/untyped"
 	"github.com/go-openapi/runtime/security"
+	"github.com/go-openapi/runtime/yamlpc"
 	"github.com/go-openapi/strfmt"
 
 	"verif/gen"
@@ -45,15 +46,17 @@ func init() {
 
 // Call is one client call against operation Op with the given values.
 type Call struct {
-	Op      int                `json:"op"`
-	Path    map[string]mon.Q   `json:"path,omitempty"`
-	Query   map[string][]mon.Q `json:"query,omitempty"`
-	Header  map[string]mon.Q   `json:"header,omitempty"`
-	Form    map[string][]mon.Q `json:"form,omitempty"`
-	FileLen int                `json:"fileLen,omitempty"`
-	File    string             `json:"file,omitempty"` // file name ("" = no file)
-	Body    map[string]mon.Q   `json:"body,omitempty"`
-	Key     mon.Q              `json:"key,omitempty"`
+	Op        int                `json:"op"`
+	Path      map[string]mon.Q   `json:"path,omitempty"`
+	Query     map[string][]mon.Q `json:"query,omitempty"`
+	Header    map[string]mon.Q   `json:"header,omitempty"`
+	HeaderArr map[string][]mon.Q `json:"headerArrays,omitempty"` // name -> items (joined by the declared separator)
+	BodyType  string             `json:"bodyType,omitempty"`     // media type used for the JSON-like body ("" = first consumes)
+	Form      map[string][]mon.Q `json:"form,omitempty"`
+	FileLen   int                `json:"fileLen,omitempty"`
+	File      string             `json:"file,omitempty"` // file name ("" = no file)
+	Body      map[string]mon.Q   `json:"body,omitempty"`
+	Key       mon.Q              `json:"key,omitempty"`
 	// what the handler answers
 	RespHeader mon.Q `json:"respHeader,omitempty"`
 	RespText   mon.Q `json:"respText,omitempty"`
@@ -98,6 +101,7 @@ func build(c *Case) (*sut, error) {
 	api.RegisterConsumer("application/x-www-form-urlencoded", rt.DiscardConsumer)
 	api.RegisterConsumer("multipart/form-data", rt.DiscardConsumer)
 	api.RegisterProducer("text/plain", rt.TextProducer())
+	api.RegisterConsumer("application/x-yaml", yamlpc.YAMLConsumer())
 	api.RegisterAuth("key", security.APIKeyAuth("X-Api-Key", "header", func(tok string) (interface{}, error) { return "P:" + tok, nil }))
 	for i := range c.Desc.Ops {
 		op := c.Desc.Ops[i]
@@ -183,6 +187,15 @@ func runCase(m *mon.M, c *Case) {
 			for k, v := range call.Header {
 				_ = req.SetHeaderParam(k, string(v))
 			}
+			for k, items := range call.HeaderArr {
+				sep := ","
+				for _, p := range op.Params {
+					if p.Name == k && p.CollectionFormat == "pipes" {
+						sep = "|"
+					}
+				}
+				_ = req.SetHeaderParam(k, strings.Join(mon.SQ(items), sep))
+			}
 			for k, v := range call.Form {
 				_ = req.SetFormParam(k, mon.SQ(v)...)
 			}
@@ -220,7 +233,11 @@ func runCase(m *mon.M, c *Case) {
 			}
 			return nil, nil
 		})
-		cop := &rt.ClientOperation{ID: op.ID, Method: op.Method, PathPattern: op.Template, ConsumesMediaTypes: op.Consumes, ProducesMediaTypes: op.Produces,
+		consumes := op.Consumes
+		if call.BodyType != "" {
+			consumes = []string{call.BodyType}
+		}
+		cop := &rt.ClientOperation{ID: op.ID, Method: op.Method, PathPattern: op.Template, ConsumesMediaTypes: consumes, ProducesMediaTypes: op.Produces,
 			Params: params, Reader: reader, AuthInfo: auth}
 		var subErr error
 		pv, st := mon.Catch(func() { _, subErr = s.rtm.Submit(cop) })
@@ -309,6 +326,12 @@ func compareValues(call *Call, got *received) string {
 	for k, v := range call.Header {
 		if g, ok := str(got.bound[k]); !ok || g != string(v) {
 			return "header"
+		}
+	}
+	for k, v := range call.HeaderArr {
+		g, ok := got.bound[k].([]string)
+		if !ok || strings.Join(g, "\x00") != strings.Join(mon.SQ(v), "\x00") {
+			return "header-array"
 		}
 	}
 	for k, v := range call.Form {
@@ -513,10 +536,16 @@ func genDesc(r *rand.Rand) (gen.Desc, bool) {
 		for k := 0; k < nh; k++ {
 			op.Params = append(op.Params, gen.Param{Name: []string{"X-Req-Id", "x-lower", "X-UPPER"}[r.Intn(3)], In: "header", Type: "string"})
 		}
+		if r.Intn(4) == 0 { // an array carried in one header line
+			op.Params = append(op.Params, gen.Param{Name: []string{"X-Labels", "x-labels-lower", "X-Shard-IDs"}[r.Intn(3)], In: "header", Type: "array", ItemsType: "string", CollectionFormat: []string{"csv", "pipes"}[r.Intn(2)]})
+		}
 		switch r.Intn(5) {
-		case 0: // JSON body
+		case 0: // JSON body, on some operations alternatively YAML (the same route sees changing media types)
 			op.Method = methodsWithBody[r.Intn(3)]
 			op.Consumes = []string{"application/json"}
+			if r.Intn(2) == 0 {
+				op.Consumes = []string{"application/json", "application/x-yaml"}
+			}
 			op.Params = append(op.Params, gen.Param{Name: "body", In: "body", Required: true})
 		case 1: // urlencoded form
 			op.Method = methodsWithBody[r.Intn(3)]
@@ -573,6 +602,18 @@ func genCall(r *rand.Rand, d *gen.Desc, oi int) Call {
 				c.Query[p.Name] = []mon.Q{mon.Q(hostile(r) + "q")}
 			}
 		case "header":
+			if p.Type == "array" {
+				if c.HeaderArr == nil {
+					c.HeaderArr = map[string][]mon.Q{}
+				}
+				n := 1 + r.Intn(3)
+				var l []mon.Q
+				for i := 0; i < n; i++ {
+					l = append(l, mon.Q([]string{"a", "bb", "x-y", "é", "v1.2", "q=1"}[r.Intn(6)]))
+				}
+				c.HeaderArr[p.Name] = l
+				continue
+			}
 			if c.Header == nil {
 				c.Header = map[string]mon.Q{}
 			}
@@ -598,6 +639,18 @@ func genCall(r *rand.Rand, d *gen.Desc, oi int) Call {
 			}
 		case "body":
 			c.Body = map[string]mon.Q{"s": mon.Q(utf8Value(r)), "t": mon.Q(utf8Value(r))}
+			if len(op.Consumes) > 1 {
+				c.BodyType = op.Consumes[r.Intn(len(op.Consumes))]
+				if c.BodyType == "application/x-yaml" {
+					// YAML 1.2 scalars: keep to printable text so that the value is what was sent
+					c.Body = map[string]mon.Q{"s": mon.Q("y" + strings.Map(func(r rune) rune {
+						if r < 0x20 || r == 0x7f || r == 0x85 || r == 0xfeff {
+							return '_'
+						}
+						return r
+					}, string(c.Body["s"]))), "t": "plain"}
+				}
+			}
 		}
 	}
 	return c
